@@ -207,5 +207,54 @@ class Interleaved(Family):
         return 'ok', True, n[0]
 
 
+class Revisit(Family):
+    """(a) more than 16 / 64 different transactions are hashed one after the other and then the earlier ones again (objects
+    kept alive, and the same values rebuilt as new objects): a digest never depends on what was hashed in between;
+    (b) a run of transactions that live only for one call"""
+    name = 'revisit_and_short_lived_transactions'
+    nontrivial_rule = 'every case'
+
+    def cases(self, shard, tier):
+        for ht in (0x01, 0x02, 0x03, 0x81, 0x83):
+            for n in (20, 70):
+                for how in ('kept', 'rebuilt', 'short_lived'):
+                    yield (ht, n, how)
+
+    def check(self, case):
+        from bitcoin.core import CTransaction
+        from bitcoin.core.script import SignatureHash, SIGVERSION_WITNESS_V0, CScript
+        ht, n, how = case
+        sc = SC_SHAPED[4]
+        cs = CScript(sc)
+        models = []
+        for i in range(n):
+            m = C.default_tx(1 + i % 3, 1 + i % 3)
+            m['locktime'] = 500 + i
+            m['vin'][-1]['seq'] = 0xfffffff0 - i
+            m['vout'][0]['value'] = 1000 + i
+            models.append(m)
+        cnt = 0
+        if how == 'short_lived':
+            for i, m in enumerate(models):
+                want = SH.bip143(sc, m, 0, ht, 777)
+                got = SignatureHash(cs, C.lib_tx(m), 0, ht, amount=777, sigversion=SIGVERSION_WITNESS_V0)
+                got2 = SignatureHash(cs, CTransaction.deserialize(W.encode_tx(m)), 0, ht, amount=777, sigversion=SIGVERSION_WITNESS_V0)
+                cnt += 2
+                if got != want or got2 != want:
+                    raise Viol('transaction #%d of a run of short-lived transactions (hashtype=%#04x): BIP143 digest is not that of its own fields' % (i, ht), want.hex(), bytes(got).hex())
+            return how, True, cnt
+        objs = [C.lib_tx(m) for m in models]
+        for rnd in (0, 1, 2):
+            for i, m in enumerate(models):
+                t = objs[i] if how == 'kept' else C.lib_tx(m)
+                for idx in range(len(m['vin'])):
+                    want = SH.bip143(sc, m, idx, ht, 777)
+                    got = SignatureHash(cs, t, idx, ht, amount=777, sigversion=SIGVERSION_WITNESS_V0)
+                    cnt += 1
+                    if got != want:
+                        raise Viol('pass %d over %d transactions, transaction #%d idx=%d hashtype=%#04x: BIP143 digest differs from the reference' % (rnd + 1, n, i, idx, ht), want.hex(), bytes(got).hex())
+        return how, True, cnt
+
+
 def families(tier):
-    return [Bip143(), Interleaved()]
+    return [Bip143(), Interleaved(), Revisit()]
